@@ -44,7 +44,9 @@ fn read_ndjson(path: &str) -> Vec<Value> {
 
 fn main() {
     // Panics of the code under test are data; keep the default hook quiet.
-    std::panic::set_hook(Box::new(|_| {}));
+    if std::env::var("NVX_PANIC").is_err() {
+        std::panic::set_hook(Box::new(|_| {}));
+    }
     let args: Vec<String> = std::env::args().collect();
     if args.len() < 2 {
         eprintln!("usage: nvx <storage|...> [--key value]...");
